@@ -147,6 +147,11 @@ def item (st : St) (ws : List String) : Option (St × String) :=
           | none => s
         pure (onConn st (fun conn =>
           let imp := if conn.sess.dialect.fmt = Parser.gtf then Importer.gtf else Importer.gff
+          -- `FeatureDB.update` first builds a DataIterator whose dialect peek pulls `checklines + 1` items: a source that
+          -- fails inside that window fails before the importer has started (position 0 for `World.step`)
+          let failAt := match failAt with
+            | some i => if i ≤ cl then some 0 else some i
+            | none => none
           World.step oracle conn (.update (c.toCfg imp d) fs failAt b)))
   | ["delete", backup, ids] => do
       let b ← parseBool backup; let ids ← decList? ids
